@@ -55,7 +55,8 @@ def canon(v, depth=0, cap=400):
     if isinstance(v, str):
         return ["str", v]
     if isinstance(v, types.FunctionType):
-        return ["fun", v.__name__, repr(getattr(v, "stored_arity", None)), repr(getattr(v, "arity", None))]
+        # the name is a hash chosen by the transpiler: not part of the value
+        return ["fun", "", repr(getattr(v, "stored_arity", None)), repr(getattr(v, "arity", None))]
     if isinstance(v, (LazyList, list, tuple)):
         if depth > 6:
             return ["deep"]
@@ -102,12 +103,12 @@ MUTABLES = [
     ("list", [[]]), ("list", [[1, 0], [0, 1]]),
     ("lazy", [1, 2, 3], 0), ("lazy", [], 0), ("lazy", [[1, 2], [3, 4]], 0), ("lazy", [3, 1, 2], 1),
     ("lazy", [1, 2, 3, 4, 5, 6], 2),
-    ("fun", "λ2*;"), ("fun", "⁽+"), ("fun", "λ2%;"), ("fun", "λ;"),
+    ("fun", "λ2+;"), ("fun", "⁽+"), ("fun", "λ2%;"), ("fun", "λ;"),
 ]
 MUTABLES_Q = [("list", [1, 2, 3]), ("list", [3, 1, 2, 1]), ("list", ["a", "bc"]), ("list", [[1, 2], [3, 4]]),
               ("list", [[1, 2, 3], [4, 5, 6], [7, 8, 9]]), ("lazy", [1, 2, 3], 0), ("lazy", [[1, 2], [3, 4]], 0),
-              ("lazy", [3, 1, 2], 1), ("fun", "λ2*;"), ("fun", "⁽+")]
-MUTABLES_3 = [("list", [1, 2, 3]), ("list", [[1, 2], [3, 4]]), ("lazy", [1, 2, 3], 0), ("lazy", [[1, 2], [3]], 1), ("fun", "λ2*;")]
+              ("lazy", [3, 1, 2], 1), ("fun", "λ2+;"), ("fun", "⁽+")]
+MUTABLES_3 = [("list", [1, 2, 3]), ("list", [[1, 2], [3, 4]]), ("lazy", [1, 2, 3], 0), ("lazy", [[1, 2], [3]], 1), ("fun", "λ2+;")]
 SCALARS_3 = [("int", 0), ("int", 2), ("str", "ab"), ("rat", 1, 2)]
 
 SKIP_KEYS = {
@@ -130,6 +131,8 @@ def _ns():
         import resource
         V.import_repo()
         import vyxal.main as M
+        import warnings
+        warnings.filterwarnings("ignore")
         _NS = dict(vars(M))
         random.seed(0)
         try:
@@ -216,11 +219,58 @@ def force_stack(stack, cap=40):
         try:
             canon(x, 0, cap)
         except BaseException as e:  # noqa: BLE001
-            if isinstance(e, V.Timeout):
+            if isinstance(e, _Late):
                 raise
 
 
+class _Late(BaseException):
+    pass
+
+
+def _late(signum, frame):
+    raise _Late()
+
+
+def own_alarm(fn, item, tmo):
+    """V.pmap's per-item alarm can fire inside its own `finally`; the workers therefore run
+    under an alarm of their own (the pmap one is set far away and never fires)."""
+    import signal
+    signal.signal(signal.SIGALRM, _late)
+    try:
+        try:
+            signal.setitimer(signal.ITIMER_REAL, tmo)
+            return fn(item)
+        finally:
+            signal.setitimer(signal.ITIMER_REAL, 0)
+    except _Late:
+        return ("timeout", None)
+
+
 def elem_case(item):
+    return own_alarm(elem_case_, item, 1.5)
+
+
+def elem_cases(item):
+    """all argument tuples of one element; gives the element up after 10 time-outs"""
+    key, tuples = item
+    out = []
+    late = 0
+    for t in tuples:
+        if late >= 10:
+            out.append(("abandoned", None))
+            continue
+        r = elem_case((key, t))
+        if r[0] == "timeout":
+            late += 1
+        out.append(r)
+    return out
+
+
+def copy_case(item):
+    return own_alarm(copy_case_, item, 2.0)
+
+
+def elem_case_(item):
     """one element on one argument tuple.  Returns (status, detail)."""
     key, specs = item
     ns = dict(_ns())
@@ -241,13 +291,13 @@ def elem_case(item):
     with contextlib.redirect_stdout(io.StringIO()):
         try:
             exec(code, ns)
-        except V.Timeout:
+        except _Late:
             raise
         except BaseException as e:  # noqa: BLE001
             err = type(e).__name__
         try:
             force_stack(stack)
-        except V.Timeout:
+        except _Late:
             raise
     bad = []
     for i, (v, src, snap, sp) in enumerate(zip(vals, kept, snaps, specs)):
@@ -255,7 +305,7 @@ def elem_case(item):
             continue
         try:
             now = canon(v)
-        except V.Timeout:
+        except _Late:
             raise
         except BaseException as e:  # noqa: BLE001
             now = ["raises", type(e).__name__]
@@ -296,10 +346,18 @@ def part1(env, E, static):
         if arity not in (1, 2, 3):
             skipped[key] = f"arity {arity}"
             continue
-        for t in arg_tuples(arity, env):
+        ts = arg_tuples(arity, env)
+        env.rng.shuffle(ts)            # so that an element that loops on one kind of argument still sees the others
+        for t in ts:
             items.append((key, t))
     t0 = time.time()
-    res = V.pmap(elem_case, items, timeout=4.0, procs=min(V.NPROC, 8))
+    by_key = collections.OrderedDict()
+    for key, t in items:
+        by_key.setdefault(key, []).append(t)
+    grouped = V.pmap(elem_cases, list(by_key.items()), timeout=900.0, procs=min(V.NPROC, 8), chunksize=1)
+    res = []
+    for (key, ts), (st, val) in zip(by_key.items(), grouped):
+        res += [("ok", r) for r in val] if st == "ok" else [(st, val)] * len(ts)
     kinds = collections.Counter()
     errors = collections.Counter()
     timeouts = collections.Counter()
@@ -308,13 +366,13 @@ def part1(env, E, static):
     for (key, specs), (st, val) in zip(items, res):
         for sp in specs:
             kinds[spec_kind(sp)] += 1
-        if st == "timeout":
-            timeouts[key] += 1
-            continue
-        if st == "exc":
+        if st != "ok":
             errors["harness:" + str(val)[:40]] += 1
             continue
         status, d = val
+        if status in ("timeout", "abandoned"):
+            timeouts[key + ":" + status] += 1
+            continue
         if d["error"]:
             errors[d["error"]] += 1
         else:
@@ -322,6 +380,7 @@ def part1(env, E, static):
         if status == "bad":
             failing[key].append((specs, d))
     for key, lst in failing.items():
+        lst.sort(key=lambda x: sum(len(spec_text(s)) for s in x[0]))
         specs, d = lst[0]
         i, what, before, after, where = d["bad"][0]
         inp = {"element": key, "args": [spec_text(s) for s in specs]}
@@ -345,7 +404,7 @@ def part1(env, E, static):
 # ---------------------------------------------------------------------------------------
 
 VALUES = [("⟨1|2|3⟩", "flat-eager"), ("⟨⟨1|2⟩|⟨3|4⟩⟩", "nested-eager"), ("3ɾ", "lazy"), ("⟨3|1|2⟩ƛ2*;", "lazy-map"),
-          ("λ2*;", "fun")]
+          ("λ2+;", "fun")]
 # (name, prefix after the value, suffix, number of references pushed back)
 FORMS = [
     ("dup-keep-original", ":→x ", "←x ", 1),        # x holds the original object, the sequence works on deep_copy
@@ -357,7 +416,7 @@ FORMS = [
 ]
 CORE = ["+", "J", "j", "h", "t", "ḣ", "ṫ", "Ṙ", "s", "L", "f", "∑", "G", "U", "i", "Ẏ", "Ż", "Z", "ẋ", "ṁ", "w", "W",
         "$", "_", "ż", "›", "ƛ›;", "v›"]
-LITERALS = ["0", "1 ", "9 ", "⁽+", "⁽›"]
+LITERALS = ["0 ", "1 ", "9 ", "⁽+", "⁽›"]
 CORE3 = ["+", "J", "h", "t", "Ṙ", "s", "L", "f", "U", "i", "Ẏ", "Z", "w", "$"]
 LITERALS3 = ["0 ", "9 ", "⁽+"]
 
@@ -384,7 +443,7 @@ def run_copy(value, form, seq):
         try:
             for tok in seq:
                 exec(code_of(tok), ns)
-        except V.Timeout:
+        except _Late:
             raise
         except BaseException as e:  # noqa: BLE001
             err = type(e).__name__
@@ -395,7 +454,17 @@ def run_copy(value, form, seq):
     return [canon(x) for x in ns["stack"][-nrefs:]], err
 
 
+_EXPECTED = {}
+
+
 def expected_value(value):
+    if value in _EXPECTED:
+        return _EXPECTED[value]
+    _EXPECTED[value] = expected_value_(value)
+    return _EXPECTED[value]
+
+
+def expected_value_(value):
     ns = dict(_ns())
     stack = []
     ns.update(stack=stack, ctx=fresh_ctx(stack))
@@ -403,13 +472,7 @@ def expected_value(value):
     return canon(stack[-1])
 
 
-def fun_blind(c):
-    """function names differ between two transpilations of the same lambda only by nothing:
-    the name is a hash of the body, so it is kept"""
-    return c
-
-
-def copy_case(item):
+def copy_case_(item):
     vi, fi, seq = item
     value = VALUES[vi][0]
     form = FORMS[fi]
@@ -445,21 +508,26 @@ def part2(env, E, static):
     alpha = list(dict.fromkeys(CORE + suspects + LITERALS))
     seqs = [(a,) for a in alpha] + [(a, b) for a in alpha for b in alpha]
     # the shapes of the recorded findings: index / value literals in front of a triadic suspect
-    seqs += [("0", "9 ", k) for k in suspects if E.elements[k][1] == 3] + [("1 ", "⁽›", k) for k in suspects if E.elements[k][1] == 3]
+    seqs += [("0 ", "9 ", k) for k in suspects if E.elements[k][1] == 3] + [("1 ", "⁽›", k) for k in suspects if E.elements[k][1] == 3]
     if env.thorough:
         a3 = list(dict.fromkeys(CORE3 + [k for k in suspects if k in ("Ȧ", "Ḟ", "¨M", "*", "Þ℅", "²", "ÞD", "ÞḊ")] + LITERALS3))
         seqs += [t for t in itertools.product(a3, repeat=3)]
+    quick_forms = {"nested-eager": (0, 1, 2, 3, 4, 5), "flat-eager": (0, 1, 4), "lazy": (0, 1, 3), "lazy-map": (1,), "fun": (3,)}
     items = []
     for vi in range(len(VALUES)):
         for fi in range(len(FORMS)):
             if VALUES[vi][1] == "fun" and fi not in (0, 3, 4):
                 continue
-            if not env.thorough and VALUES[vi][1] == "lazy-map" and fi in (2, 5):
+            if not env.thorough and fi not in quick_forms[VALUES[vi][1]]:
                 continue
             for s in seqs:
+                if not env.thorough and VALUES[vi][1] in ("lazy-map", "fun") and len(s) > 1 and s[0] not in LITERALS:
+                    continue
+                if len(s) == 3 and s[0] not in LITERALS and (fi not in quick_forms[VALUES[vi][1]] or VALUES[vi][1] in ("lazy-map", "fun")):
+                    continue           # length 3: the reduced value x form matrix
                 items.append((vi, fi, s))
     t0 = time.time()
-    res = V.pmap(copy_case, items, timeout=4.0, procs=min(V.NPROC, 8), chunksize=128)
+    res = V.pmap(copy_case, items, timeout=900.0, procs=min(V.NPROC, 8), chunksize=128)
     by_len = collections.Counter()
     errs = collections.Counter()
     timeouts = 0
@@ -467,11 +535,11 @@ def part2(env, E, static):
     nontrivial = []
     for (vi, fi, seq), (st, val) in zip(items, res):
         by_len[len(seq)] += 1
-        if st == "timeout":
-            timeouts += 1
-            continue
-        if st == "exc":
+        if st != "ok":
             errs["harness:" + str(val)[:50]] += 1
+            continue
+        if val[0] == "timeout":
+            timeouts += 1
             continue
         status, err, d = val
         if err:
@@ -485,8 +553,10 @@ def part2(env, E, static):
         lst.sort(key=lambda x: len(x[0]))
         prog, form, d = lst[0]
         inp = {"program": prog, "form": form}
+        from vlib import runprog
+        e2e = runprog.run(prog, inputs=["2", "3"])
         msg = (f"copy program {prog}: the untouched reference should be {d['want']}, is {', '.join(d['got'])} "
-               f"(blamed element {k}; {len(lst)} failing programs)")
+               f"(blamed element {k}; {len(lst)} failing programs; run end to end the program prints {e2e['out'].strip()!r})")
         env.fail(inp, msg, cls=f"C10:{k}")
         if k in keys and k not in static["flagged_elements"]:
             env.disagree("mutation-summary", inp, "summary: clean", msg)
@@ -502,18 +572,22 @@ def part2(env, E, static):
 # part 3: the named programs, end to end
 # ---------------------------------------------------------------------------------------
 
+# (program, index in the final stack of the reference that was never transformed, its expected
+#  value, element to blame).  execute_vyxal pops the top of the stack for the implicit output, so
+#  every program ends in a dummy 0 that takes that role.
 NAMED = [
-    ("⟨1|2|3⟩:0 9Ȧ", 0, [1, 2, 3], "Ȧ"),
-    ("⟨1|2|3⟩:0 9Ȧ$", 0, [9, 2, 3], None),                 # control: the assigned copy itself
-    ("⟨1|2⟩:⁽+Ḟ5Ẏ$", 1, [1, 2], "Ḟ"),
-    ("⟨1|2|3⟩£¥0 9Ȧ_¥", 0, [1, 2, 3], "Ȧ"),
-    ("⟨1|2|3⟩→x ←x 0 9Ȧ_←x ", 0, [1, 2, 3], "Ȧ"),
-    ("⟨1|2|3⟩⅛¾h0 9Ȧ_¾h", 0, [1, 2, 3], "Ȧ"),
-    ("⟨1|2|3⟩:⟨0⟩⁽d¨M", 0, [1, 2, 3], "¨M"),
-    ("⟨1|2|3⟩:Ṙ", 0, [1, 2, 3], "Ṙ"),
-    ("⟨3|1|2⟩:s", 0, [3, 1, 2], "s"),
-    ("⟨1|2|3⟩:4J", 0, [1, 2, 3], "J"),
-    ("3ɾ:0 9Ȧ", 0, [1, 2, 3], "Ȧ"),
+    ("⟨1|2|3⟩:0 9Ȧ 0", 0, [1, 2, 3], "Ȧ"),
+    ("⟨1|2|3⟩:0 9Ȧ 0", 1, [9, 2, 3], None),                # control: the assigned copy itself
+    ("⟨1|2⟩:⁽+Ḟ5Ẏ$ 0", 1, [1, 2], "Ḟ"),
+    ("⟨1|2|3⟩£¥0 9Ȧ_¥ 0", 0, [1, 2, 3], "Ȧ"),
+    ("⟨1|2|3⟩→x ←x 0 9Ȧ_←x 0", 0, [1, 2, 3], "Ȧ"),
+    ("⟨1|2|3⟩⅛¾h0 9Ȧ_¾h 0", 0, [1, 2, 3], "Ȧ"),
+    ("⟨1|2|3⟩:⟨0⟩⁽d¨M 0", 0, [1, 2, 3], "¨M"),
+    ("3ɾ:0 9Ȧ 0", 0, [1, 2, 3], "Ȧ"),
+    ("⟨1|2|3⟩:Ṙ 0", 0, [1, 2, 3], "Ṙ"),
+    ("⟨3|1|2⟩:s 0", 0, [3, 1, 2], "s"),
+    ("⟨1|2|3⟩:4J 0", 0, [1, 2, 3], "J"),
+    ("⟨1|2|3⟩D0 9Ȧ 0", 1, [1, 2, 3], "Ȧ"),
 ]
 
 
